@@ -201,6 +201,9 @@ def run(ctx):
     idx = ClassIndex(ctx, files)
     ctx.need("Application" in idx.classes, "class Application")
     apps = ["Application"] + idx.subclasses("Application")
+    from ..program import inline_inherited_new_helpers
+    if inline_inherited_new_helpers(ctx, idx, apps):
+        idx = ClassIndex(ctx, files)
     # a timeout of 0 seconds is a timeout (cancel at once), only None means "wait for ever"
     from ..lints import optional_numbers_tested_for_none
     optional_numbers_tested_for_none(ctx, "application/application.py", "R2.timeout-zero-honoured", 1)
